@@ -169,7 +169,7 @@ def run_spec(ctx, src="e2.cxx", exe="e2", prefix_filter="", flags="", per_timeou
         for e in ents:
             if e["kind"] != "valid":
                 continue
-            nm = "%s/%s/%s%s" % (ctx.pid, c, (pth + "/") if npaths_of[c] > 1 else "", e["obligation"])
+            nm = ("%s/%s/%s%s" % (ctx.pid, c, (pth + "/") if npaths_of[c] > 1 else "", e["obligation"])).replace(" ", "_")
             if feasible is False:
                 res.append(("vacuous", nm))
                 continue
